@@ -49,10 +49,13 @@ def after_group_opening_with_pointer_cast(ln, k):
         elif t == "(":
             depth -= 1
             if depth == 0:
-                nx = ln.lex[j + 1] if j + 1 < len(ln.lex) else None
+                jj = j + 1
+                while jj < len(ln.lex) and ln.lex[jj].t == "(" and "cast-open" not in ln.lex[jj].tags:
+                    jj += 1          # the cast may sit behind further opening parentheses
+                nx = ln.lex[jj] if jj < len(ln.lex) else None
                 if nx is None or "cast-open" not in nx.tags:
                     return False
-                m = j + 2
+                m = jj + 1
                 words = []
                 while m < len(ln.lex) and "cast-close" not in ln.lex[m].tags:
                     words.append(ln.lex[m])
